@@ -16,13 +16,13 @@ from harness import lib, nodes
 from harness.lib import cb, cl, cn, cz, copt
 
 PROP = "C06"
-IMPORTS = "Base Fail"
+IMPORTS = "Base Fail Free"
 FUEL = 400
 RULE = ("flow: signal graphs as in C02 (forward run/accumulate edges over 2-7 nodes, optional If branch, `failed` handlers) "
         "whose functions raise on a negative argument; negative constants make 1-3 nodes fail, incl. starting nodes; dag: "
         "random DAGs 2-9 nodes with 1-2 failing nodes, every node independently on the manual executor, optionally one "
         "nested macro with a failing child; free: the flow graphs again with parentless nodes (signals delivered depth first, every "
-        "starting node run in turn by the caller; oracle only); argument -5/-7/-8/-9 raise AttributeError/ReadinessError/"
+        "starting node run in turn by the caller; model Free.v); argument -5/-7/-8/-9 raise AttributeError/ReadinessError/"
         "IndexError/KeyError subclasses. Non-trivial: at least one node failed AND at least one other node ran; distinct by content.")
 TRUSTED = ["harness ManualExecutor and replacement of composite.sleep as the completion schedule (dag family)"]
 ASSUMPTIONS = ["the failing function is deterministic (raises iff an argument is negative)",
@@ -646,7 +646,16 @@ def run_impl(case):
     return run_flow(case) if case["fam"] == "flow" else run_dag(case)
 
 
+def free_view(case, o):
+    if not isinstance(o, dict):
+        return o
+    vs = [r["verdict"] if isinstance(r["verdict"], str) or r["verdict"][0] != "Readiness" else ["Readiness"] for r in o["runs"]]
+    return [vs, o["prov"], o["outs"], o["failed"]]
+
+
 def model_view(case, obs):
+    if case["fam"] == "free":
+        return free_view(case, obs)
     return flow_view(case, obs) if case["fam"] == "flow" else obs
 
 
@@ -655,6 +664,8 @@ def _has_interrupt(case):
 
 
 def model_term(case):
+    if case["fam"] == "free":
+        return f"obs_free {flow_coq(case)} {cn(FUEL)} {cl(cn(i) for i in case['starting'])}"
     if case["fam"] != "flow" or _has_interrupt(case):
         # a KeyboardInterrupt is not collected by the composite's loop (it leaves at once): oracle only
         return None
